@@ -10,15 +10,20 @@ SPEC = hdr_spec(
     props_file="C12", extra=spine_scripts(['files']),
     partial_note="the quantifier over crash points is discharged by complete enumeration per history (fault enumeration), the quantifier over histories by generated histories; "
                  "the full 'every prefix loads and is sound' statement is a theorem for the FIRST Save of a linear chain (C12_first_save_crash_linear: genesis-only chain before the "
-                 "index write, the chain being saved after it); for later Saves/Cleans over existing files and for forests with side branches the theorems give the write order "
-                 "the argument rests on and the enumeration carries the claim.")
+                 "index write, the chain being saved after it). The LOAD half is a theorem for EVERY storage image (C12_load_any_image_sound: any history, any side branches, any "
+                 "index order, unlinkable files): an image passing StoreOK loads without error or panic and its best chain is a linked chain of stored headers from the lowest height kept "
+                 "in memory to the tip, ending in the heaviest linkable branch; StoreOK's executable test (proved sound) is evaluated by the driver on every image this run loaded "
+                 "(coverage.load_hypothesis_StoreOK). Not proved: that every prefix of a LATER Save/Clean of a forest leaves StoreOK images (consolidate + branch-file merging), and the "
+                 "history below the in-memory window served from the main-chain files — there the enumeration carries the claim.")
 
 META = dict(
-    technique="Lean 4 proof (every crash prefix of the first Save of a linear chain loads and is sound; write-order theorems over the storage-event model, tied to the extracted call order) + exhaustive crash-prefix enumeration compared between code and model",
+    technique="Lean 4 proof (Load of every consistent storage image is sound; every crash prefix of the first Save of a linear chain loads and is sound; write-order theorems over the storage-event model, tied to the extracted call order) + exhaustive crash-prefix enumeration compared between code and model",
     text="Theorems for every repository state: saveBranches writes one branch file per tracked branch and only then the index naming them; the invalid list is the last write; "
          "each event touches one key; the stage order of Save and Clean is the extracted one and Clean never writes the index. For the first Save of a linear chain (any length) the write sequence is "
          "main-file writes/removals, branch file, index, invalid list (C12_first_save_sequence) and for EVERY prefix of it Load succeeds and reports either the genesis-only chain "
-         "(index not yet written) or exactly the chain being saved (C12_first_save_crash_linear). For every generated history every prefix of every "
+         "(index not yet written) or exactly the chain being saved (C12_first_save_crash_linear). For EVERY storage image that passes StoreOK (each indexed branch file non-empty and "
+         "internally linked, index headed by a root file, main files present) Load succeeds and reports a linked best chain of stored headers ending in the heaviest linkable "
+         "branch (C12_load_any_image_sound, by an order-of-acceptance invariant over Link; the executable StoreOK test is proved sound and run on every loaded image). For every generated history every prefix of every "
          "Clean/Save write sequence is materialised and loaded by the real code and by the model; the monitor checks load success, linkage, that the tip was accepted, and work against the last completed Save.",
     note=COMMON_NOTE + "Each individual key write is assumed atomic (as the property states). Partial: see evidence.",
 )
